@@ -98,7 +98,7 @@ def check_framing(rec, sections, out, case):
 
 def check_unknown_reports(rec, sections, out, case):
     unknown = [n for n, _ in sections if n not in known_names()]
-    chart_logs = [m for (lg, lvl, m) in out.logs if lg == "chartparse.chart"]
+    chart_logs = [m for (lg, lvl, m) in out.logs if lg == "chartparse.chart" and lvl in ("WARNING", "ERROR", "CRITICAL")]
     rec.ev()
     if len(chart_logs) != len(unknown):
         rec.violation("unknown-section-report", f"{len(unknown)} unknown sections {unknown} but {len(chart_logs)} records on logger "
